@@ -78,7 +78,10 @@ Record DefImg (s0 : state) (d d' : id) (s : state) (m : memo) : Prop := mkDI {
   di_cables : forall p, In p (kids s0 RCables d) -> exists p', In (p, p') m /\ In p' (kids s RCables d') /\ ImgOK s0 RWires p p' s m;
   di_children : forall p, In p (kids s0 RChildren d) -> exists p', In (p, p') m /\ In p' (kids s RChildren d');
   di_ports_rev : forall p', In p' (kids s RPorts d') -> exists p, In (p, p') m /\ In p (kids s0 RPorts d);
-  di_children_rev : forall p', In p' (kids s RChildren d') -> exists p, In (p, p') m /\ In p (kids s0 RChildren d)
+  di_children_rev : forall p', In p' (kids s RChildren d') -> exists p, In (p, p') m /\ In p (kids s0 RChildren d);
+  di_ports_ord : Forall2 (fun p p' => In (p, p') m) (kids s0 RPorts d) (kids s RPorts d');
+  di_cables_ord : Forall2 (fun p p' => In (p, p') m) (kids s0 RCables d) (kids s RCables d');
+  di_children_ord : Forall2 (fun p p' => In (p, p') m) (kids s0 RChildren d) (kids s RChildren d')
 }.
 
 Section DefStage.
@@ -98,7 +101,7 @@ Section DefStage.
     destruct U0 as [I0 [T0 [F0 [FT0 K0]]]]. pose proof (inv_a _ I0) as I1.
     pose proof (ri_st _ _ _ R) as ST0. pose proof (ri_ab _ _ _ R) as Ab. pose proof (ri_pl _ _ _ R) as Pl.
     pose proof (st_n0 _ _ _ ST0) as Hn0.
-    destruct (def_clone1_stage s0 s m d G m' d' I1 T0 F0 (pk_of_st _ _ _ ST0) Ab Pl Hd Hkd Hfree E) as [SO [Hd' [Hin [D1 [D2 [D3 [D4 D5]]]]]]].
+    destruct (def_clone1_stage s0 s m d G m' d' I1 T0 F0 (pk_of_st _ _ _ ST0) Ab Pl Hd Hkd Hfree E) as [SO [Hd' [Hin [D1 [D2 [D3 [D4 [D5 [O1 [O2 O3]]]]]]]]]].
     destruct (def_clone1_kp s m d G m' d' Ab Pl E) as [_ [Hn [Hf [Hg [Hpd [AbG PlG]]]]]].
     destruct (def_clone1_t s m d G m' d' Ab Pl E) as [HkdG TF].
     destruct (km_def_clone1 _ _ _ _ _ _ _ E) as [_ Km].
